@@ -328,6 +328,37 @@ def run(rep, ctx):
         if not ok or n_ck == 1:
             t1.check(ok, "keeper-copy|%s" % f.full.split(">::CopyNames")[0][-40:], short_loc(f.loc), "each stored constraint takes the current name of its node slot")
     rep.extra["keepers_checked"] = n_ck
+    # names go INTO the node for every stored constraint, reformulated ones included: what is derived from a reformulated
+    # constraint takes its name from that slot
+    n_c2 = 0
+    for f in all_of("mp::ConstraintKeeper::CopyNames2ValueNodes"):
+        st_ = [n for n in f.walk() if n["k"] == "CXXOperatorCallExpr" and n.get("op") == "=" and
+               strip(call_args(n)[0])["k"] == "CXXOperatorCallExpr" and strip(call_args(n)[0]).get("op") == "[]" and "name()" in render(call_args(n)[1])]
+        ok, why = len(st_) == 1, "%d stores of a constraint name into the node in the function itself" % len(st_)
+        if ok:
+            lp_ = f.enclosing(st_[0], ("ForStmt", "WhileStmt", "DoStmt", "CXXForRangeStmt"))
+            sh_ = loop_shape(f, lp_) if lp_ is not None and lp_["k"] in ("ForStmt", "WhileStmt") else None
+            tx_ = lambda e: xrender(f, e, True).replace(" ", "").replace("this->", "").replace("(int)", "").replace("(size_t)", "")
+            full = False
+            if sh_ is not None and sh_["stepped"]:
+                if sh_["dir"] == "up" and sh_["rel"] in ("<", "!=") and sh_["start"] not in (None, "continues") and cv(sh_["start"]) == 0:
+                    full = tx_(sh_["bound"]) in ("cons_.size()", "GetValueNode().GetStrVec().size()")
+                elif sh_["dir"] == "down" and sh_.get("values") == "below" and sh_["bound"] is not None:
+                    full = tx_(sh_["bound"]) in ("cons_.size()", "GetValueNode().GetStrVec().size()")
+            body_ = [x for x in lp_.get("c", []) if x is not None][-1] if lp_ is not None else None
+            inner_ = {x["i"] for x in walk(body_)} if body_ is not None else set()
+            cond_ = [c_ for c_ in f.cfg.facts_at(st_[0]) if c_[0] in inner_]
+            idx_ = strip(call_args(strip(call_args(st_[0])[0]))[1])
+            src_ix = [x for x in walk(call_args(st_[0])[1]) if x["k"] == "CXXOperatorCallExpr" and x.get("op") == "[]" and
+                      any(y["k"] == "MemberExpr" and y.get("name") == "cons_" for y in walk(call_args(x)[0]))]
+            same_ix = sh_ is not None and idx_.get("declId") == sh_["var"] and len(src_ix) == 1 and strip(call_args(src_ix[0])[1]).get("declId") == sh_["var"]
+            ok = full and not cond_ and same_ix
+            why = "the store `%s` is %s" % (render(st_[0])[:60], "conditional" if cond_ else "not in a loop over all stored constraints with matching positions")
+        n_c2 += 1
+        if not ok or n_c2 == 1:
+            t1.check(ok, "keeper-names-to-node|%s" % f.full.split(">::CopyNames")[0][-40:], short_loc(f.loc),
+                     "every stored constraint, reformulated or not, puts its name into its node slot",
+                     "%s: items derived from a constraint that is skipped get names built from an empty string (empty or duplicate names)" % why)
 
     # ---- G1 ---------------------------------------------------------------------------
     g1 = rep.rule("C19.G1", "GUARD", "original names: requested counts, generic fall-back, objective selection", floor=5)
